@@ -1005,8 +1005,60 @@ func (fl *flattener) flattenOnce(f *ast.File, skip map[*ast.FuncLit]bool) (chang
 		}
 		return pre, repl
 	}
+	// condOperand: the call that is evaluated FIRST and unconditionally in a condition: the condition itself, or the
+	// leftmost operand under !, parentheses, && and ||. If that is a flattenable literal call with plain arguments it can
+	// be evaluated into a temporary in front of the if statement without changing the order of evaluation.
+	var condOperand func(e *ast.Expr) *ast.Expr
+	condOperand = func(e *ast.Expr) *ast.Expr {
+		switch x := (*e).(type) {
+		case *ast.ParenExpr:
+			return condOperand(&x.X)
+		case *ast.UnaryExpr:
+			if x.Op == token.NOT {
+				return condOperand(&x.X)
+			}
+		case *ast.BinaryExpr:
+			if x.Op == token.LAND || x.Op == token.LOR {
+				return condOperand(&x.X)
+			}
+		case *ast.CallExpr:
+			c, l := iife(x)
+			if c == nil || skip[l] || !flattenable(l) {
+				return nil
+			}
+			for _, a := range c.Args {
+				if !plainExpr(a) {
+					return nil
+				}
+			}
+			return e
+		}
+		return nil
+	}
 	visitList = func(list *[]ast.Stmt) bool {
 		for i, s := range *list {
+			if ifs, ok := s.(*ast.IfStmt); ok {
+				if op := condOperand(&ifs.Cond); op != nil {
+					t := fl.fresh("C")
+					assign := &ast.AssignStmt{Lhs: []ast.Expr{ast.NewIdent(t)}, Tok: token.DEFINE, Rhs: []ast.Expr{*op}}
+					*op = ast.NewIdent(t)
+					var repl []ast.Stmt
+					if ifs.Init == nil {
+						repl = []ast.Stmt{assign, ifs}
+					} else {
+						// the init statement runs first and its names stay visible to the if: wrap all three in a block
+						init := ifs.Init
+						ifs.Init = nil
+						repl = []ast.Stmt{&ast.BlockStmt{List: []ast.Stmt{init, assign, ifs}}}
+					}
+					out := append([]ast.Stmt{}, (*list)[:i]...)
+					out = append(out, repl...)
+					out = append(out, (*list)[i+1:]...)
+					*list = out
+					changed = true
+					return true
+				}
+			}
 			var initOf ast.Stmt
 			switch x := s.(type) {
 			case *ast.IfStmt:
@@ -1191,6 +1243,28 @@ func spliceTail(f *ast.File) bool {
 				}
 			}
 			fresh := false
+			sameNamed := false
+			capturedBefore := func() bool {
+				captured := false
+				for _, st := range fd.Body.List[:len(fd.Body.List)-1] {
+					ast.Inspect(st, func(n ast.Node) bool {
+						if fl, ok := n.(*ast.FuncLit); ok {
+							ast.Inspect(fl.Body, func(m ast.Node) bool {
+								if id, ok := m.(*ast.Ident); ok {
+									for _, nm := range litNames {
+										if id.Name == nm && nm != "_" {
+											captured = true
+										}
+									}
+								}
+								return !captured
+							})
+						}
+						return !captured
+					})
+				}
+				return captured
+			}
 			switch {
 			case len(outer) == 0 && outerFields == len(litNames) && litFields == len(litNames):
 				// The function's results get the literal's names. A local of that name declared at the top level
@@ -1232,6 +1306,7 @@ func spliceTail(f *ast.File) bool {
 				if !same {
 					continue
 				}
+				sameNamed = true
 			default:
 				continue
 			}
@@ -1293,7 +1368,32 @@ func spliceTail(f *ast.File) bool {
 				})
 			}
 			if touched {
-				continue
+				// The function's named results were assigned before the tail (`args, err := f()` with the usual
+				// `if err != nil { return }`): the literal's own results started from zero, so the splice resets
+				// them first - harmless unless a closure created earlier can still observe the variable.
+				if !sameNamed || capturedBefore() {
+					continue
+				}
+				for i, nm := range litNames {
+					if nm == "_" {
+						continue
+					}
+					var typ ast.Expr
+					k := 0
+					for _, fld := range fd.Type.Results.List {
+						for range fld.Names {
+							if k == i {
+								typ = fld.Type
+							}
+							k++
+						}
+					}
+					if typ == nil {
+						continue
+					}
+					resets = append(resets, &ast.AssignStmt{Lhs: []ast.Expr{ast.NewIdent(nm)}, Tok: token.ASSIGN, Rhs: []ast.Expr{
+						&ast.StarExpr{X: &ast.CallExpr{Fun: ast.NewIdent("new"), Args: []ast.Expr{typ}}}}})
+				}
 			}
 		}
 		// parameters
@@ -1803,6 +1903,24 @@ func computeSignatureBacks(pkgs []*packages.Package) (map[string][]renameEdit, [
 		}
 		sort.Strings(missing)
 		sort.Strings(unknown)
+		// a known function that is still there under its own name but with its parameters in another order
+		for n, o := range decl {
+			if ks, ok := knownFuncs[n]; ok && ks != SigKey(o) {
+				missing = append(missing, n)
+				unknown = append(unknown, n)
+			}
+		}
+		sort.Strings(missing)
+		sort.Strings(unknown)
+		typeBag := func(sig string) string {
+			i := strings.Index(sig, " -> ")
+			if i < 2 {
+				return sig
+			}
+			ps := splitTop(sig[1 : i-1])
+			sort.Strings(ps)
+			return strings.Join(ps, ",") + sig[i:]
+		}
 		for _, m := range missing {
 			var cands []string
 			for _, u := range unknown {
@@ -1814,6 +1932,21 @@ func computeSignatureBacks(pkgs []*packages.Package) (map[string][]renameEdit, [
 			for _, m2 := range missing {
 				if base(m2) == base(m) {
 					sameBase++
+				}
+			}
+			if len(cands) == 0 {
+				// renamed as well: the only new function with these parameter and result types, for the only missing
+				// known function with them
+				for _, u := range unknown {
+					if _, stillKnown := knownFuncs[u]; !stillKnown && typeBag(SigKey(decl[u])) == typeBag(knownFuncs[m]) {
+						cands = append(cands, u)
+					}
+				}
+				sameBase = 0
+				for _, m2 := range missing {
+					if typeBag(knownFuncs[m2]) == typeBag(knownFuncs[m]) {
+						sameBase++
+					}
 				}
 			}
 			if len(cands) != 1 || sameBase != 1 {
